@@ -110,6 +110,39 @@ func TestVerifC17(t *testing.T) {
 			}
 		}
 	}
+	// after completion: forged unprotected fragments with message numbers the peer never used, handed to
+	// the side that sent the last flight (server after a full handshake, client after a resumed one):
+	// they repeat nothing, so the final flight must not be sent again (F65)
+	for _, vn := range []string{"psk", "cert", "cert-clientauth", "psk-resumed", "cert-resumed"} {
+		v, ok := byName[vn]
+		if !ok {
+			continue
+		}
+		to := "server"
+		if v.Resumed {
+			to = "client"
+		}
+		var inj []c02Inject
+		for k := 0; k < 3; k++ {
+			inj = append(inj, c02Inject{At: time.Duration(500+100*k) * time.Millisecond, To: to, HT: 4, MSeq: 100 + k,
+				FOff: 0, FLen: 10, TLen: 30, RecSeq: uint64(5000 + k)})
+		}
+		jobs = append(jobs, job{v, nil, c02Opt{Inject: inj, Settle: 2 * time.Second}})
+	}
+	// while the client waits for the first answer: somebody repeats ONE identical fragment of a later message
+	// twice per interval. Only the first copy is new data; the retransmission interval must keep doubling
+	for _, vn := range []string{"psk", "cert"} {
+		for _, iv := range []time.Duration{40 * time.Millisecond, time.Second} {
+			var inj []c02Inject
+			for k := 0; k < 40; k++ {
+				inj = append(inj, c02Inject{At: iv/4 + time.Duration(k)*iv/2, To: "client", HT: 2, MSeq: 7,
+					FOff: 0, FLen: 1, TLen: 100, RecSeq: uint64(7000 + k)})
+			}
+			jobs = append(jobs, job{byName[vn], nil, c02Opt{
+				Interval: iv, SilenceUntil: 24 * iv, SilenceTo: "both", Inject: inj, Limit: 24*iv + 500*time.Second,
+			}})
+		}
+	}
 	// silence starting after the handshake made some progress: random masks + later silence window
 	n := 40
 	if vIsThorough() {
